@@ -137,11 +137,34 @@ def r06_1(run):
 def dispatch_table(run):
     ci = machine(run)
     d = ci.attrs.get('_dispatch')
-    if not isinstance(d, ast.Dict):
-        raise AnchorVanished('_SocksMachine._dispatch literal dict')
     out = {}
-    for k, v in zip(d.keys, d.values):
-        out[const(k)] = dotted(v)
+    if isinstance(d, ast.Dict):
+        for k, v in zip(d.keys, d.values):
+            out[const(k)] = dotted(v)
+        return out
+    # the same as an if-chain in _send_request: each sender call is decided by equality tests on self._req_type (an `assert ==`
+    # in front of the last one counts as its test)
+    sr = run.idx.find_method(ci, '_send_request')
+    if sr is not None:
+        g = cfg_of(sr, assert_raises=True)
+        for n in g.real_nodes():
+            for a in node_asts(n):
+                if isinstance(a, ast.Call) and (dotted(a.func) or '').startswith('self._send_') and dotted(a.func) != 'self._send_request':
+                    for t, lab in g.guarded_by(n, lambda t_: isinstance(t_, ast.Compare) and len(t_.ops) == 1 and dotted(t_.left) == 'self._req_type'
+                                               and isinstance(t_.ops[0], (ast.Eq, ast.NotEq)) and isinstance(const(t_.comparators[0]), str)):
+                        if (lab == 'T') == isinstance(t.ast.ops[0], ast.Eq):
+                            out[const(t.ast.comparators[0])] = dotted(a.func)[5:]
+        for st in walk_unit(sr):
+            if isinstance(st, ast.Assert) and isinstance(st.test, ast.Compare) and dotted(st.test.left) == 'self._req_type' and isinstance(st.test.ops[0], ast.Eq):
+                # the statement right after the assert
+                body = sr.node.body
+                for i, b in enumerate(body):
+                    if b is st and i + 1 < len(body):
+                        for a in ast.walk(body[i + 1]):
+                            if isinstance(a, ast.Call) and (dotted(a.func) or '').startswith('self._send_'):
+                                out[const(st.test.comparators[0])] = dotted(a.func)[5:]
+    if len(out) < 3:
+        raise AnchorVanished('_SocksMachine._dispatch literal dict')
     return out
 
 
@@ -322,6 +345,16 @@ def r06_3(run):
     sr = MU(run, '_send_request')
     calls = [c for c in calls_in(sr) if isinstance(c.func, ast.Subscript) and dotted(c.func.value) == 'self._dispatch']
     ok = len(calls) == 1 and dotted(calls[0].func.slice) == 'self._req_type'
+    if not calls:
+        # an if-chain instead of the table: every path through _send_request runs exactly one sender, chosen by the request type
+        gs_ = cfg_of(sr, assert_raises=True)
+        ok = len(disp) >= 3
+        for p_ in gs_.paths(follow_exc=False):
+            if p_.exit == 'raise':
+                continue
+            k_ = sum(1 for n_, _ in p_.steps for a_ in node_asts(n_) if n_.kind == 'stmt' and isinstance(a_, ast.Call) and (dotted(a_.func) or '')[5:] in disp.values())
+            if k_ != 1:
+                ok = False
     run.ob('R06.3', sr, sr.node, 'one packer chosen by the request type', ok, slot='dispatch', message='_send_request does not dispatch once on self._req_type')
     pv = MU(run, '_parse_version_reply')
     g = cfg_of(pv)
